@@ -95,7 +95,7 @@ def pool(tier, seed):
             cs = cs[:-1]
         fsel = fl if tier != "quick" else rng.sample(fl, min(len(fl), 8))
         if tier != "quick":
-            fsel = rng.sample(fl, 40)
+            fsel = rng.sample(fl, 16)
         for f in fsel:
             AND = True if has_la else rng.random() < 0.75
             prog = {"scan": rng.choice(scans), "comps": cs, "meta": []}
